@@ -38,7 +38,36 @@ def run(A, R: Report, thorough: bool):
                 local_adds.append((a, arg.id))
         elif isinstance(arg, ast.Call):
             local_adds.append((a, None))
-    R.require(local_adds, 'anchor: Task.data no longer attaches a locally acquired log handler (addHandler)')
+    if not local_adds:
+        # the pairing may live in a context manager of the task (`with self._logging_to_data():`): what follows the yield runs on a normal
+        # exit of the with-body only - the detach has to sit in a `finally` around the yield
+        cms = []
+        for w_ in [n for n in inl(A, fdata) if isinstance(n, (ast.With, ast.AsyncWith))]:
+            for it_ in w_.items:
+                ce = it_.context_expr
+                if isinstance(ce, ast.Call) and isinstance(ce.func, ast.Attribute) and src(ce.func.value) == 'self' and ce.func.attr in task.methods:
+                    h_ = task.methods[ce.func.attr]
+                    if any('contextmanager' in src(d_) for d_ in h_.node.decorator_list) and any(isinstance(x, ast.Call) and isinstance(x.func, ast.Attribute) and x.func.attr == 'addHandler' for x in A.typer.own_nodes(h_)):
+                        cms.append(h_)
+        for h_ in cms:
+            adds_h = [x for x in A.typer.own_nodes(h_) if isinstance(x, ast.Call) and isinstance(x.func, ast.Attribute) and x.func.attr == 'addHandler' and x.args]
+            for a in adds_h:
+                var = src(a.args[0])
+                yields = [y for y in A.typer.own_nodes(h_) if isinstance(y, (ast.Yield, ast.YieldFrom)) and y.lineno > a.lineno]
+                protected = True
+                for y in yields:
+                    ok_y = False
+                    p_ = getattr(y, '_parent', None)
+                    while p_ is not None and not isinstance(p_, (ast.FunctionDef, ast.AsyncFunctionDef)):
+                        if isinstance(p_, ast.Try) and any(isinstance(c, ast.Call) and isinstance(c.func, ast.Attribute) and c.func.attr == 'removeHandler' and c.args and src(c.args[0]) == var
+                                                           for st in p_.finalbody for c in ast.walk(st)):
+                            ok_y = True
+                        p_ = getattr(p_, '_parent', None)
+                    protected = protected and ok_y
+                R.check(bool(yields) and protected, 'R18.1', f'{h_.short}: `{src(a)}`', key_of('leak-contextmanager', protected), 'detached in a finally around the yield',
+                        f'the context manager detaches the handler after its `yield` without try / finally: when the with-body raises (the run fails), the code after the yield never runs and the handler stays on the '
+                        'process-global task logger - a retry writes into the same log file through two handlers', where=where(h_, a))
+        R.require(cms, 'anchor: Task.data no longer attaches a locally acquired log handler (addHandler), neither directly nor through a context manager of the task')
     for a, var in local_adds:
         name = f'Task.data: `{src(a)}`'
         if var is None:
@@ -67,7 +96,12 @@ def run(A, R: Report, thorough: bool):
             if reassigned:
                 R.undecided('R18.1', name, f'`{var}` is reassigned after addHandler; pairing not tracked', where=where(fdata, a))
                 continue
-            p = cfg.find_path(starts, [cfg.exit.id, cfg.raise_exit.id], avoid=removes + infeasible)
+            # the call statement of an inlined helper only passes plain names: what can fail is in the helper's body, which follows in the graph
+            quiet = [n.id for n in cfg.nodes.values() if n.kind == 'stmt' and isinstance(n.ast, (ast.Expr, ast.Assign)) and isinstance(n.ast.value, ast.Call)
+                     and all(isinstance(x, (ast.Name, ast.Constant)) for x in list(n.ast.value.args) + [k_.value for k_ in n.ast.value.keywords])
+                     and (not isinstance(n.ast, ast.Assign) or all(isinstance(t_, ast.Name) for t_ in n.ast.targets))
+                     and any(cfg.nodes[v].label == 'inline-entry' for v in normal_succ(cfg, n.id))]
+            p = cfg.find_path(starts, [cfg.exit.id, cfg.raise_exit.id], avoid=removes + infeasible, no_exc_from=quiet)
             if p is None:
                 R.ok('R18.1', name, f'{len(removes)} removeHandler site(s) cut every path to the exits', where=where(fdata, a))
             else:
